@@ -82,8 +82,9 @@ func loadScripts(path string) []script {
 	return out
 }
 
-// runOne executes one schedule; problems end up in the E line.
-func runOne(s script, profile string, seed uint64, w *traceWriter) {
+// runOne executes one schedule; problems end up in the E line. It reports whether the process can go on
+// with the next schedule: after a stall it cannot - the stalled goroutine may be spinning.
+func runOne(s script, profile string, seed uint64, w *traceWriter) bool {
 	r := &run{out: w, status: "ok", profile: profile}
 	w.line("B", strconv.Itoa(s.idx), strconv.Itoa(s.ncallers), s.desc, s.cfg.String())
 	func() {
@@ -123,6 +124,7 @@ func runOne(s script, profile string, seed uint64, w *traceWriter) {
 	}()
 	r.finish()
 	r.teardown()
+	return !strings.HasPrefix(r.status, "stuck")
 }
 
 // blockedIn finds the receive loop's goroutine in a dump and names the client function it is blocked in.
@@ -133,6 +135,8 @@ func blockedIn(stack string) (string, string) {
 		}
 		where := "receive-loop"
 		switch {
+		case strings.Contains(g, "popMessageAsBytes") || strings.Contains(g, "compress/gzip"):
+			where = "gzip-unpack"
 		case strings.Contains(g, ".warnError"):
 			where = "warnError"
 		case strings.Contains(g, ".writeRPCResponse"):
@@ -383,7 +387,9 @@ func worker(profile, mode, arg string, from int, outPath string) {
 	seed := vc.Seed()
 	ss := schedules(profile, mode, arg, seed)
 	for i := from; i < len(ss) && i < from+batch; i++ {
-		runOne(ss[i], profile, seed, w)
+		if !runOne(ss[i], profile, seed, w) {
+			break // a fresh process for the next schedule
+		}
 	}
 	f.Close()
 	os.RemoveAll(filepath.Join(os.TempDir(), fmt.Sprintf("verif-c11-%d", os.Getpid())))
